@@ -240,6 +240,32 @@ def paramsL2Ops : String → Option (List String → String)
   | "lparams_chk" => some fun a => match natArgs a with
       | some [x, ab] => if x < 2 then "NOPRINT" else lparamsLine x ab
       | _ => "ERR:proto"
+  -- real-run counterparts: what the entry point itself prints (harness ops gvars / dvars / lvars)
+  | "gvars_chk" => some fun a => match a with
+      | [w, x, ay, az] => match wideArg w, natArgs [x, ay, az] with
+        | some wd, some [x, ay, az] =>
+          if x < 2 then "NOPRINT" else
+          match gourdonL2 wd x 1 (gFloatsOf x (fOfBits ay) (fOfBits az)) with
+          | .ok o => s!"{o.y} {o.z} {o.k} {o.xStar}"
+          | .error e => e.show
+        | _, _ => "ERR:proto"
+      | _ => "ERR:proto"
+  | "dvars_chk" => some fun a => match a with
+      | [w, x, ab] => match wideArg w, natArgs [x, ab] with
+        | some wd, some [x, ab] =>
+          if x < 2 then "NOPRINT" else
+          match drL2 wd x 1 (dFloatsOf x (fOfBits ab)) with
+          | .ok o => s!"{o.y} {o.z} {o.c}"
+          | .error e => e.show
+        | _, _ => "ERR:proto"
+      | _ => "ERR:proto"
+  | "lvars_chk" => some fun a => match natArgs a with
+      | some [x, ab] =>
+        if x < 2 then "NOPRINT" else
+        match lmoL2 x (truncF ((irootN 3 x).toFloat * fOfBits ab)) with
+        | .ok o => s!"{o.y} {o.z} {o.c}"
+        | .error e => e.show
+      | _ => "ERR:proto"
   -- alphas x a ay az (thousandths, -1 = default) -> the four doubles, computed entirely in the model
   | "alphas" => some fun a => match a.map parseInt? with
       | [some x, some al, some ay, some az] =>
